@@ -31,6 +31,8 @@ FunFeatureSets(tier) ==
     {"unknownvalue"},
     {"@calltuple"},                  \* a callable parameter whose result is a tuple: written as two results, no tuple type is shown
     {"@kwnone"},                     \* a keyword-only parameter whose default is None: optional, so no marker
+    {"@kwcall"},                     \* a keyword-only parameter whose default is a call: Python gives it a default, so it is not a required one
+    {"optposonly", "@poscall"},      \* a position-only parameter whose default is a module constant: optional, so the marker
     {"optposonly", "@posnone"} }     \* a position-only parameter whose default is None: optional, so the marker
   \cup (IF tier = "quick" THEN {} ELSE { {"pmiss", "tuple", "variadic"}, {"rmiss", "reqkwonly"}, {"optposonly", "unknownvalue", "set"} })
 FunShapes(tier) == { Shape("fun", TRUE, f) : f \in FunFeatureSets(tier) } \cup { Shape("fun", FALSE, {"pmiss", "variadic", "tuple"}) }
@@ -38,7 +40,8 @@ MethodShapes(tier) ==
   { Shape("method", TRUE, f) : f \in FunFeatureSets(tier) }
   \cup { Shape("method", TRUE, {"classmethod"}), Shape("method", TRUE, {"classmethod", "set"}), Shape("method", FALSE, {"pmiss", "classmethod", "tuple"}) }
 AttrShapes(tier) ==
-  { Shape("attr", TRUE, f) : f \in { {}, {"amiss"}, {"tuple"}, {"set"}, {"listmulti"}, {"set", "setmulti"} } }
+  { Shape("attr", TRUE, f) : f \in { {}, {"amiss"}, {"tuple"}, {"set"}, {"listmulti"}, {"set", "setmulti"},
+                                      {"amiss", "@prop"}, {"set", "@prop"} } }      \* "@prop": the attribute is a property (a method with @property)
   \cup { Shape("attr", FALSE, {"amiss", "tuple"}) }
 (* classes: signature-level markers (constructor parameters, multiple inheritance); each class has one typed attribute and one   *)
 (* method whose markers must stay on them *)
@@ -108,10 +111,11 @@ Judge(obs) ==
         exp == (f \cap ScenarioKinds) \cup (shown \cap ShownKinds)
         miss == exp \ todos
         extra == todos \ exp
-    IN { [property |-> "C20", clause |-> "Exact", sig |-> obs.cont \o ":missing:" \o k,
+        tag == IF "@kwcall" \in f THEN ":default-is-a-call" ELSE IF "@poscall" \in f THEN ":default-is-a-constant" ELSE ""
+    IN { [property |-> "C20", clause |-> "Exact", sig |-> obs.cont \o ":missing:" \o k \o tag,
           expected |-> ToString(exp), observed |-> ToString(todos)] : k \in miss }
        \cup
        { [property |-> "C20", clause |-> "Exact",
-          sig |-> obs.cont \o ":extra:" \o k \o (IF k \in prev THEN ":carried-over-from-predecessor" ELSE ""),
+          sig |-> obs.cont \o ":extra:" \o k \o (IF k \in prev THEN ":carried-over-from-predecessor" ELSE "") \o tag,
           expected |-> ToString(exp), observed |-> ToString(todos)] : k \in extra }
 =============================================================================
